@@ -144,6 +144,10 @@ def onTopOrBottom (b : Box) (q : V2) : Prop :=
 
 instance (b : Box) (q : V2) : Decidable (onTopOrBottom b q) := by unfold onTopOrBottom; infer_instance
 
+/-- the box spanned by two arbitrary corners -/
+def rectBox (c1 c2 : V2) : Box :=
+  { pos := ⟨min c1.x c2.x, min c1.y c2.y⟩, size := ⟨max c1.x c2.x - min c1.x c2.x, max c1.y c2.y - min c1.y c2.y⟩ }
+
 inductive Style where
   | oblique | manhattan | tree
 deriving DecidableEq, Repr
@@ -352,6 +356,11 @@ def viewport (bounds : List Rect) : Option Rect :=
 
 /-- `q` lies on the segment from `a` to `b` -/
 def onSegment (a b q : V2) : Prop := ∃ t : Rat, 0 ≤ t ∧ t ≤ 1 ∧ q = a + (b - a).smul t
+
+/-- `q` lies on one of the segments of the polyline -/
+def onPolyline : List V2 → V2 → Prop
+  | a :: b :: rest, q => onSegment a b q ∨ onPolyline (b :: rest) q
+  | _, _ => False
 
 /-- closest point of the segment `a b` to `v` (`a ≠ b`) -/
 def segProject (a b v : V2) : V2 :=
